@@ -369,12 +369,17 @@ def run(ctx: Ctx) -> None:
     rule_guarded_lookup(ctx)
     rule_metric_copies(ctx)
     shapes.rule_metric_source(ctx)
+    from ..rules import loops
+    loops.rule_iter_snapshot(ctx, "graphiq/circuit/circuit_dag.py", "CircuitDAG")
     ctx.floor("flow.definite-attr", 30)
     ctx.floor("label.exists", 4)
     ctx.floor("effect.inplace-on-input", 8)
 
 
 KNOCKOUTS = [
+    Knockout("emit-depth-offset", METRICS, sub_once("e_depth[e_i] = len(c.reg_gate_history(reg=e_i)[1]) - 2", "e_depth[e_i] = len(c.reg_gate_history(reg=e_i)[1]) - 1"), "metric.source", "offset"),
+    Knockout("emit-depth-photon-wire", METRICS, sub_once("e_depth[e_i] = len(c.reg_gate_history(reg=e_i)[1]) - 2", "e_depth[e_i] = len(c.reg_gate_history(reg=e_i, reg_type='p')[1]) - 2"), "metric.source", "per-emitter"),
+    Knockout("identity-live-iteration", "graphiq/circuit/circuit_dag.py", sub_once('identity_list = self.node_dict["Identity"].copy()', 'identity_list = self.node_dict["Identity"]'), "iter.snapshot", "iterated element"),
     Knockout("metric-source-photons", METRICS, sub_once("        n = circuit.n_emitters\n", "        n = circuit.n_photons\n"), "metric.source", "CircuitEmitterCount"),
     Knockout("G8-default-attr", METRICS,
              sub_once("        if m_penalty is None:\n            self.m_penalty = (", "        if m_penalty is None:\n            self.measure_penalty = ("),
